@@ -106,6 +106,9 @@ export function resolveAbsentProp(opt, propsObj = {}) {
     if (opt.type !== Function && !opt.skipFactory && isFunction(d)) value = d.call(null, propsObj);
     else value = d;
   }
+  // boolean casting (resolvePropValue): an absent Boolean prop WITHOUT a default becomes false
+  const types = isArray(opt.type) ? opt.type : [opt.type];
+  if (!hasDefault && types.includes(Boolean)) value = false;
   return { value, hasDefault };
 }
 function getType(ctor) {
